@@ -30,6 +30,10 @@ def build_menu(w, sc):
             where[c.container_id] = p.pool_id
     for cid in list(w.key_of_cid)[-3:]:
         m.append(("suspend", cid, where.get(cid, 0)))
+    running = [c for p in ex.pools for c in p.active_containers]
+    if len(running) > 1:
+        m.append(("suspend-many", [(c.container_id, c.pool_id) for c in running]))
+        m.append(("suspend-many", [(c.container_id, c.pool_id) for c in running if c.can_suspend_container()] or [(running[0].container_id, running[0].pool_id)]))
     return m
 
 
@@ -103,6 +107,18 @@ def scenarios(tier):
                     out.append(dict(name=f"F2-tps{tps}-a{alloc}-{'x'.join(map(str, shape))}-{nb}", tps=tps, pools=1, cpus=3, ram=pool_ram,
                                     overcommit=False, multi=True, horizon=horizon, pipelines=pipes,
                                     expect_all_done=(nb != "oom"), done_within_deviations=1))
+    # trios: three two-operator containers that reach their operator boundary in the same tick, so that
+    # several suspensions can be requested together and several write-outs can end in the same tick
+    for tps, allocs in ((2, (25, 25, 64)), (2, (25, 64, 25)), (2, (64, 25, 25)), (4, (12, 12, 30)), (10, (4.3, 4.3, 20.3))):
+        if tier == "quick" and tps == 4:
+            continue
+        pipes = []
+        for i, a in enumerate(allocs):
+            pipes.append(dict(prio="B", arrival=i, alloc=a, cpu=1, parents=[[], [0]],
+                              ops=[[dict(cpu=dur(3 - i, tps), scaling="const", mem=0.25, read=0)], [dict(cpu=dur(1, tps), scaling="const", mem=0.25, read=0)]]))
+        d = max(1, int(max(allocs) / 20 * tps))
+        out.append(dict(name=f"F2-trio-tps{tps}-{'-'.join(map(str, allocs))}", tps=tps, pools=1, cpus=3, ram=160, overcommit=False, multi=True,
+                        horizon=min(3 + 2 * d + 8, 36), pipelines=pipes, expect_all_done=True, done_within_deviations=1))
     return out
 
 
